@@ -124,7 +124,7 @@ K = Known()
 class Sub:
     """One sub-check of a property."""
 
-    def __init__(self, name, strategy, run, cases, weight=1, max_shards=16, describe=""):
+    def __init__(self, name, strategy, run, cases, weight=1, max_shards=16, describe="", enum=None):
         self.name = name
         self.strategy = strategy  # fn(tier) -> hypothesis strategy yielding JSON-able case
         self.run = run  # fn(case) -> Out
@@ -132,6 +132,7 @@ class Sub:
         self.weight = weight  # relative share of the 16 shards
         self.max_shards = max_shards
         self.describe = describe
+        self.enum = enum  # optional fn(tier) -> iterator of cases: exhaustive enumeration instead of random generation
 
 
 def counting_graph_class(base):
